@@ -56,3 +56,9 @@ func VerifReplicaRound(p Partition, node models.NodeID) bool {
 func VerifPartitionLog(p Partition) queue.FanOutQueue {
 	return p.(*partition).log
 }
+
+// VerifStepwise, when set, keeps StartReplica from starting the free-running replica loop: the harness runs the
+// iterations itself(VerifReplicaRound), also for partitions which the write ahead log manager creates and recovers.
+var VerifStepwise bool
+
+func verifStepwise() bool { return VerifStepwise }
